@@ -72,9 +72,16 @@ Inductive case :=
     (* decryptChunkData on a chunk whose decrypted span is S and whose data part has dlen bytes: returned length *)
 | CGet (reflen : nat) (found : bool) (datalen : N) (sp : N) (obs : robs N)
     (* decryptingStore.Get: reference length, getter hit, stored data length, decrypted span: returned data length *)
-| CTrie (b : nat) (runs : list (N * nat)) (obs : robs (N * list (N * N))).
+| CTrie (b : nat) (runs : list (N * nat)) (obs : robs (N * list (N * N)))
     (* hashtrie writer with branching b fed the leaf spans [runs] (run-length), then Sum:
-       root span and the (span, references) of every intermediate chunk handed to the short pipeline *)
+       root span and the (span, references) of every intermediate chunk handed to the short pipeline.
+       The recording pipeline returns Data whose first 8 bytes are the span xor [stub_mask]
+       (as an encrypting stage would) and leaves args.Span alone. *)
+| CTrieEnc (runs : list (N * nat)) (obs : robs (N * list (N * N))).
+    (* hashtrie writer at the production encrypted parameters over the REAL short chain
+       encryption writer -> bmt writer -> store writer, fed leaf references with the spans [runs];
+       every stored intermediate chunk read back through the REAL decrypting store, in order of
+       creation: (decrypted span, restored payload length in bytes); root span *)
 
 (** padding oracle read back from the observed ciphertext (relational) *)
 Definition pad_of (data ct : list N) : nat -> N := fun i => nth i (skipn (length data) ct) 0.
@@ -123,6 +130,16 @@ Definition get_len (reflen : nat) (found : bool) (datalen sp : N) : res N :=
 Definition expand_runs (runs : list (N * nat)) : list N :=
   flat_map (fun r => repeat (fst r) (snd r)) runs.
 
+Definition stub_mask : N := 11936128518282651045.   (* 0xA5A5A5A5A5A5A5A5 *)
+Definition stub_proc (s : N) : N := N.lxor s stub_mask.
+Definition enc_branching : nat := N.to_nat (Z.to_N Consts.boson_Branches / 2).
+(** the writer forwards args.Span, so what the stages did to Data[:8] does not matter; the model is
+    nevertheless run with the stub's processing function so that a model forwarding Data[:8]
+    would reproduce exactly what such an implementation does *)
+Definition model_trie (b : nat) (runs : list (N * nat)) := trie_run p_span stub_proc b (expand_runs runs).
+Definition model_trie_enc (runs : list (N * nat)) : res (N * list (N * N)) :=
+  res_map (fun r => (fst r, map (fun e => (fst e, refsize * snd e)) (snd r))) (model_trie enc_branching runs).
+
 Definition pairN_eqb := pair_eqb N.eqb N.eqb.
 Definition trie_eqb := pair_eqb N.eqb (list_eqb pairN_eqb).
 
@@ -136,7 +153,8 @@ Definition check_case (c : case) : bool :=
   | CEncPat hlen key padding initCtr seed len obs => res_eqb pairN_eqb (model_enc_pat hlen key padding initCtr seed len) obs
   | CStrip sp dlen obs => res_eqb N.eqb (strip_len sp dlen) obs
   | CGet reflen found datalen sp obs => res_eqb N.eqb (get_len reflen found datalen sp) obs
-  | CTrie b runs obs => res_eqb trie_eqb (trie_run b (expand_runs runs)) obs
+  | CTrie b runs obs => res_eqb trie_eqb (model_trie b runs) obs
+  | CTrieEnc runs obs => res_eqb trie_eqb (model_trie_enc runs) obs
   end.
 
 (** printed on a mismatch: the model's view next to the observation *)
@@ -158,5 +176,6 @@ Definition explain_case (c : case) : explain :=
   | CEncPat hlen key padding initCtr seed len obs => XPat (to_robs (model_enc_pat hlen key padding initCtr seed len)) obs
   | CStrip sp dlen obs => XLen (to_robs (strip_len sp dlen)) obs
   | CGet reflen found datalen sp obs => XLen (to_robs (get_len reflen found datalen sp)) obs
-  | CTrie b runs obs => XTrie (to_robs (trie_run b (expand_runs runs))) obs
+  | CTrie b runs obs => XTrie (to_robs (model_trie b runs)) obs
+  | CTrieEnc runs obs => XTrie (to_robs (model_trie_enc runs)) obs
   end.
